@@ -5,7 +5,7 @@ from __future__ import annotations
 
 import numpy as np
 
-from ..simpool import PoolSim
+from ..simpool import PoolSim, patched_futures
 
 # (outputs, inputs) of the enumerated player with 1000 < outputs**inputs <= 4096
 ENUM_SHAPES = [(2, 10), (2, 11), (2, 12), (3, 7), (4, 5), (4, 6), (5, 5), (6, 4), (7, 4), (8, 4), (11, 3), (13, 3), (16, 3), (32, 2), (45, 2), (64, 2)]
@@ -105,12 +105,36 @@ class patched_mp:
         self.module, self.sim = module, sim
 
     def __enter__(self):
-        self.saved = self.module.multiprocessing
-        self.module.multiprocessing = self.sim.module()
+        self.saved = getattr(self.module, "multiprocessing", None)
+        if self.saved is not None:
+            self.module.multiprocessing = self.sim.module()
+        # the other standard way to get worker processes
+        self.fut = patched_futures(self.sim, [self.module])
+        self.fut.__enter__()
+        # the machine the code believes it runs on: the number of CPUs is part of the simulated configuration
+        import os as _os
+
+        n = self.sim.cpu_count
+        self.os_saved = [(_os, "cpu_count", _os.cpu_count)]
+        _os.cpu_count = lambda: n
+        if hasattr(_os, "process_cpu_count"):
+            self.os_saved.append((_os, "process_cpu_count", _os.process_cpu_count))
+            _os.process_cpu_count = lambda: n
+        if hasattr(_os, "sched_getaffinity"):
+            self.os_saved.append((_os, "sched_getaffinity", _os.sched_getaffinity))
+            _os.sched_getaffinity = lambda pid=0: set(range(n))
+        real = self.os_saved[0][2]
+        if getattr(self.module, "cpu_count", None) is real:
+            self.os_saved.append((self.module, "cpu_count", real))
+            self.module.cpu_count = lambda: n
         return self.sim
 
     def __exit__(self, *a):
-        self.module.multiprocessing = self.saved
+        for holder, name, val in self.os_saved:
+            setattr(holder, name, val)
+        self.fut.__exit__()
+        if self.saved is not None:
+            self.module.multiprocessing = self.saved
 
 
 def pool_reach(sim, res):
